@@ -71,6 +71,7 @@ func (c *dynamicCollector) Add(in interface{}) error {
 
 	chunk := newBatchCollector(c.maxSamples)
 	c.chunks = append(c.chunks, chunk)
+	c.hash = docHash
 
 	return errors.WithStack(chunk.Add(doc))
 }
